@@ -288,6 +288,14 @@ def case_list(thorough, rng):
                             zeroB=False, must_silent=False, opts={"max_niter": 2}))
             out.append(dict(method=method, mode="none", cls=cls, dtype="float64", op="dense", bA=[], bB=[], bE=[], bM=[], n=6, ncols=2,
                             zeroB=False, must_silent=False, opts={"rtol": 1e-10, "atol": 1e-12}))
+    # right-hand sides so large that the inner products of the Krylov recurrences overflow (inf / NaN residual norms): a run that
+    # cannot tell that it converged must not return silently (gmres: torch's least-squares routine raises on non-finite input -
+    # an error, not a silent return, so it is not part of these rows)
+    for method in ("cg", "bicgstab"):
+        for dt_, big in (("float64", 1e160), ("float32", 1e20)):
+            for cs in ([big, 1.0, 1.0], [big, big, big]):
+                out.append(dict(method=method, mode="none", cls="spd", dtype=dt_, op="dense", bA=[], bB=[], bE=[], bM=[], n=5, ncols=3,
+                                zeroB=False, must_silent=False, opts={}, colscale=cs))
     # options that switch code paths inside the Krylov solvers
     variants = {"cg": [{"posdef": True}, {"posdef": False}, {"resid_calc_every": 1}, {"resid_calc_every": 3}, {"precond": "jacobi"}],
                 "bicgstab": [{"posdef": True}, {"posdef": False}, {"resid_calc_every": 1}, {"resid_calc_every": 3}, {"precond_l": "jacobi"}, {"precond_r": "jacobi"},
